@@ -179,6 +179,8 @@ def group_args(cfg, fmt="json"):
         a += ["--max-suffix-size", str(cfg["max_suffix"])]
     if cfg.get("transform"):
         a += ["--transform", TRANSFORMS[cfg["transform"]][0]]
+    if cfg.get("skip_content"):
+        a.append("--skip-content-hash")
     for t in cfg.get("threads", []):
         a += ["--threads", t]
     return a
